@@ -270,6 +270,8 @@ const ALPHABET: &[&str] = &[
     "#\\69  .c", ".\\6587 x", ".\\1F600 x",
     // non-ASCII literals: letters, ideographs, and identifier code points that are not letters
     ".é", ".文", ".文 d", "#é", ".😀", ".c😀",
+    // an escape and a non-letter identifier code point in one leading name, in both orders
+    ".a\\:😀b", "#😀\\:b", "#\\31 st😀",
     // no leading class / id: per-site route
     "div.c", "[c]", "*", "div", "c", "i", "[c=\".c\"]", "div#i", ":not(.c)", "*.c", "div > .c",
 ];
